@@ -830,7 +830,7 @@ Proof.
       rewrite (kind_of_shared _ f Hne) in Hk. subst k. destruct H1 as [Hc Hg].
       destruct (leave_res_group c (a :: g0) x Hne Hc H2) as (Hc' & _ & Hgr).
       destruct g' as [|b g1].
-      + cbn [str_eqb]. now rewrite !obs_nil, Hc', Hc.
+      + cbn [str_eqb]. unfold obs. cbn [is_empty]. rewrite Hc'. now rewrite Hc.
       + rewrite !obs_ne by discriminate. apply Hgr. }
   constructor.
   - destruct g as [|a g0].
@@ -858,4 +858,1197 @@ Proof.
       * injection E1 as ->. now rewrite str_eqb_refl.
       * destruct (str_eqb_spec c' c) as [E2|E2]; [subst c'; now elim E1|]. now apply H6.
     + destruct (skey_eqb_spec (c', g', f) (c, g, f)) as [E1|E1]; [congruence|]. now apply H6.
+Qed.
+
+(* ================================================================== *)
+(* 5. the invariant of one trie                                        *)
+(* ================================================================== *)
+
+Definition TInv (k : kind) (get : getter) (T : node) : Prop :=
+  wfT T /\ forall p, NInv k get p (nd p T).
+
+Lemma path_eq_dec (p q : list level) : {p = q} + {p <> q}.
+Proof. apply list_eq_dec. apply list_eq_dec. apply N.eq_dec. Qed.
+
+Lemma TInv_ext k get get' T :
+  (forall c g f, kind_of g f = k -> get (c, g, f) = get' (c, g, f)) ->
+  TInv k get T -> TInv k get' T.
+Proof.
+  intros He [Hwf Hn]. split; [exact Hwf|]. intros p.
+  apply (NInv_ext k get get'); [|apply Hn]. intros c g f _ Hk. now apply He.
+Qed.
+
+Lemma NInv_empty k p : NInv k (fun _ => None) p empty_node.
+Proof.
+  constructor.
+  - destruct k; [reflexivity|reflexivity|split; reflexivity].
+  - constructor.
+  - intros g. rewrite obs_empty_node. constructor.
+  - intros g. rewrite obs_empty_node. congruence.
+  - intros g f c _ _. rewrite obs_empty_node. reflexivity.
+Qed.
+
+Lemma TInv_empty k : TInv k (fun _ => None) empty_node.
+Proof. split; [apply wfT_empty|]. intros p. rewrite nd_empty. apply NInv_empty. Qed.
+
+Lemma TInv_sub k get c s T :
+  TInv k get T -> kind_of (s_share s) (s_filter s) = k ->
+  TInv k (get_set (c, s_share s, s_filter s) s get) (tsubscribe (split (s_filter s)) c s T).
+Proof.
+  intros [Hwf Hn] Hk. split; [now apply wfT_tsub|]. intros p.
+  destruct (path_eq_dec p (split (s_filter s))) as [E|E].
+  - subst p. rewrite nd_tsub_same. now apply NInv_sub.
+  - apply (NInv_same3 _ _ _ _ (nd p T)); [now apply nd_tsub_other|].
+    apply (NInv_ext k get); [|apply Hn].
+    intros c' g' f' Hp _. unfold get_set.
+    destruct (skey_eqb_spec (c', g', f') (c, s_share s, s_filter s)) as [E1|E1]; [|reflexivity].
+    injection E1 as _ _ E3. subst f'. contradiction.
+Qed.
+
+Lemma TInv_unsub k get c g f T :
+  TInv k get T -> kind_of g f = k ->
+  TInv k (get_del (c, g, f) get) (tunsubscribe (split f) c g T).
+Proof.
+  intros [Hwf Hn] Hk. split; [now apply wfT_tunsub|]. intros p.
+  destruct (path_eq_dec p (split f)) as [E|E].
+  - subst p. rewrite nd_tunsub_same; [|apply split_nonempty|exact Hwf]. now apply NInv_unsub.
+  - apply (NInv_same3 _ _ _ _ (nd p T)); [now apply nd_tunsub_other|].
+    apply (NInv_ext k get); [|apply Hn].
+    intros c' g' f' Hp _. unfold get_del.
+    destruct (skey_eqb_spec (c', g', f') (c, g, f)) as [E1|E1]; [|reflexivity].
+    injection E1 as _ _ E3. subst f'. contradiction.
+Qed.
+
+(* ================================================================== *)
+(* 6. TrieDB operations in normal form                                 *)
+(* ================================================================== *)
+
+Definition kind_eqb (a b : kind) : bool :=
+  match a, b with
+  | KUser, KUser => true | KSys, KSys => true | KShared, KShared => true
+  | _, _ => false
+  end.
+
+Lemma kind_eqb_spec a b : reflect (a = b) (kind_eqb a b).
+Proof. destruct a, b; constructor; congruence. Qed.
+
+Lemma kind_eqb_refl a : kind_eqb a a = true.
+Proof. now destruct a. Qed.
+
+Definition upd (k : kind) (t : node) (i : index) (g : stats) (cs : list (cid * stats)) (p : bool) (d : db) : db :=
+  set_stats g cs p (set_trie_index k t i d).
+
+Lemma trie_of_upd k' k t i g cs p d :
+  trie_of k' (upd k t i g cs p d) = if kind_eqb k' k then t else trie_of k' d.
+Proof. destruct k, k'; reflexivity. Qed.
+
+Lemma index_of_upd k' k t i g cs p d :
+  index_of k' (upd k t i g cs p d) = if kind_eqb k' k then i else index_of k' d.
+Proof. destruct k, k'; reflexivity. Qed.
+
+Lemma gstats_upd k t i g cs p d : gstats (upd k t i g cs p d) = g.
+Proof. destruct k; reflexivity. Qed.
+Lemma cstats_upd k t i g cs p d : cstats (upd k t i g cs p d) = cs.
+Proof. destruct k; reflexivity. Qed.
+Lemma panicked_upd k t i g cs p d : panicked (upd k t i g cs p d) = p.
+Proof. destruct k; reflexivity. Qed.
+
+Definition keys_at (c : cid) (idx : index) : list str :=
+  match aget c idx with Some ks => ks | None => [] end.
+
+Definition zero_stats : stats := {| st_total := 0; st_cur := 0 |}.
+Definition bump (x : stats) : stats :=
+  {| st_total := u64_add (st_total x) 1; st_cur := u64_add (st_cur x) 1 |}.
+Definition drop (n : N) (x : stats) : stats :=
+  {| st_total := st_total x; st_cur := u64_sub (st_cur x) n |}.
+
+Definition sub_cs0 (c : cid) (idx : index) (cs : list (cid * stats)) : list (cid * stats) :=
+  match aget c idx with
+  | Some _ => cs
+  | None => match aget c cs with Some _ => cs | None => aset c zero_stats cs end
+  end.
+
+Lemma db_subscribe_nf c s d :
+  let k := kind_of (s_share s) (s_filter s) in
+  let idx := index_of k d in
+  let keys := keys_at c idx in
+  let key := index_key (s_share s) (s_filter s) in
+  let ex := mem_str key keys in
+  let cs0 := sub_cs0 c idx (cstats d) in
+  db_subscribe c s d =
+  (upd k (tsubscribe (split (s_filter s)) c s (trie_of k d))
+       (aset c (if ex then keys else keys ++ [key]) idx)
+       (if ex then gstats d else bump (gstats d))
+       (if ex then cs0 else match aget c cs0 with Some x => aset c (bump x) cs0 | None => cs0 end)
+       (if ex then panicked d else match aget c cs0 with Some _ => panicked d | None => true end)
+       d, ex).
+Proof.
+  cbv zeta. unfold db_subscribe, sub_cs0, keys_at, upd.
+  destruct (aget c (index_of (kind_of (s_share s) (s_filter s)) d)) as [keys|].
+  - destruct (mem_str (index_key (s_share s) (s_filter s)) keys); [reflexivity|].
+    destruct (aget c (cstats d)); reflexivity.
+  - cbn [mem_str].
+    destruct (aget c (cstats d)) eqn:E.
+    + rewrite E. reflexivity.
+    + unfold zero_stats. rewrite !aget_aset_same. reflexivity.
+Qed.
+
+Lemma db_unsubscribe_nf c topic d :
+  let g := fst (split_topic topic) in
+  let f := snd (split_topic topic) in
+  let k := kind_of g f in
+  let idx := index_of k d in
+  let keys := keys_at c idx in
+  let key := index_key g f in
+  let ex := mem_str key keys in
+  db_unsubscribe c topic d =
+  upd k (tunsubscribe (split f) c g (trie_of k d))
+      (if ex then aset c (del_str key keys) idx else idx)
+      (if ex then drop 1 (gstats d) else gstats d)
+      (if ex then match aget c (cstats d) with Some x => aset c (drop 1 x) (cstats d) | None => cstats d end
+       else cstats d)
+      (if ex then match aget c (cstats d) with Some _ => panicked d | None => true end else panicked d)
+      d.
+Proof.
+  cbv zeta. unfold db_unsubscribe, keys_at, upd.
+  destruct (split_topic topic) as [g f]. cbn [fst snd].
+  destruct (aget c (index_of (kind_of g f) d)) as [keys|]; [|reflexivity].
+  destruct (mem_str (index_key g f) keys); [|reflexivity].
+  destruct (aget c (cstats d)); reflexivity.
+Qed.
+
+Definition is_shared_kind (k : kind) : bool := match k with KShared => true | _ => false end.
+
+Lemma db_unsub_all_kind_nf k c d :
+  let keys := keys_at c (index_of k d) in
+  let n := N.of_nat (length keys) in
+  db_unsub_all_kind k c d =
+  upd k (fold_left (fun t key => unsub_entry (is_shared_kind k) c key t) keys (trie_of k d))
+      (adel c (index_of k d))
+      (drop n (gstats d))
+      (match aget c (cstats d) with Some x => aset c (drop n x) (cstats d) | None => cstats d end)
+      (panicked d) d.
+Proof. reflexivity. Qed.
+
+(* ================================================================== *)
+(* 7. index keys of the specification                                  *)
+(* ================================================================== *)
+
+Definition selk (k : kind) (c : cid) (key : skey) : bool :=
+  let '(c', g, f) := key in str_eqb c c' && kind_eqb (kind_of g f) k.
+Definition ikey (key : skey) : str := let '(_, g, f) := key in index_key g f.
+Definition keys_of (k : kind) (c : cid) (sp : spec) : list str :=
+  map ikey (filter (selk k c) (map fst sp)).
+
+Fixpoint kdel (key : skey) (l : list skey) : list skey :=
+  match l with [] => [] | x :: r => if skey_eqb key x then r else x :: kdel key r end.
+
+Lemma map_fst_sp_set key s sp :
+  map fst (sp_set key s sp) =
+  match sp_get key sp with Some _ => map fst sp | None => map fst sp ++ [key] end.
+Proof.
+  induction sp as [|[k0 v0] r IH]; cbn [sp_set sp_get map fst]; [reflexivity|].
+  destruct (skey_eqb_spec key k0) as [E|E]; cbn [map fst].
+  - now subst k0.
+  - rewrite IH. destruct (sp_get key r); reflexivity.
+Qed.
+
+Lemma map_fst_sp_del key sp : map fst (sp_del key sp) = kdel key (map fst sp).
+Proof.
+  induction sp as [|[k0 v0] r IH]; cbn [sp_del kdel map fst]; [reflexivity|].
+  destruct (skey_eqb key k0); [reflexivity|]. cbn [map fst]. now rewrite IH.
+Qed.
+
+Lemma map_fst_filter (p : skey -> bool) (sp : spec) :
+  map fst (filter (fun e => p (fst e)) sp) = filter p (map fst sp).
+Proof.
+  induction sp as [|[k0 v0] r IH]; cbn [filter map fst]; [reflexivity|].
+  destruct (p k0); cbn [map fst]; now rewrite IH.
+Qed.
+
+Lemma sp_get_in_keys key sp : In key (map fst sp) -> sp_get key sp <> None.
+Proof.
+  induction sp as [|[k0 v0] r IH]; cbn [sp_get map fst In]; intros H; [destruct H|].
+  destruct (skey_eqb_spec key k0) as [E|E]; [discriminate|].
+  destruct H as [H|H]; [congruence|now apply IH].
+Qed.
+
+Lemma keys_kdel (sel : skey -> bool) (key : skey) (L : list skey) :
+  (forall k2, In k2 L -> sel k2 = true -> sel key = true -> ikey k2 = ikey key -> k2 = key) ->
+  map ikey (filter sel (kdel key L)) =
+  if sel key then del_str (ikey key) (map ikey (filter sel L)) else map ikey (filter sel L).
+Proof.
+  induction L as [|x r IH]; intros Hinj; cbn [kdel filter map].
+  - destruct (sel key); reflexivity.
+  - assert (IH' := IH (fun k2 Hin => Hinj k2 (or_intror Hin))). clear IH.
+    destruct (skey_eqb_spec key x) as [E|E].
+    + subst x. destruct (sel key) eqn:Es; [|reflexivity].
+      cbn [map del_str]. now rewrite str_eqb_refl.
+    + cbn [filter]. destruct (sel x) eqn:Ex; [|exact IH'].
+      cbn [map]. rewrite IH'. destruct (sel key) eqn:Es; [|reflexivity].
+      cbn [del_str]. destruct (str_eqb_spec (ikey key) (ikey x)) as [E1|E1]; [|reflexivity].
+      exfalso. apply E. symmetry. apply Hinj; [now left|exact Ex|reflexivity|now symmetry].
+Qed.
+
+Lemma index_key_inj g f g' f' :
+  kind_of g f = kind_of g' f' -> no_slash g = true -> no_slash g' = true ->
+  index_key g f = index_key g' f' -> g = g' /\ f = f'.
+Proof.
+  intros Hk Hg Hg' He. destruct g as [|a g0].
+  - assert (E : g' = []).
+    { apply (kind_of_nonshared_inv g' f'). rewrite <- Hk. apply kind_of_nil_ns. }
+    subst g'. cbn in He. now split.
+  - assert (Hne : a :: g0 <> []) by discriminate.
+    assert (Hne' : g' <> []).
+    { apply (kind_of_shared_inv g' f'). rewrite <- Hk. now apply kind_of_shared. }
+    unfold index_key in He.
+    apply is_empty_false in Hne, Hne'. rewrite Hne, Hne' in He.
+    pose proof (cut_slash_app (a :: g0) f Hg) as H1.
+    pose proof (cut_slash_app g' f' Hg') as H2.
+    rewrite He in H1. rewrite H1 in H2. injection H2 as -> ->. now split.
+Qed.
+
+Definition good (e : skey * sub) : Prop :=
+  let '(c, g, f) := fst e in s_share (snd e) = g /\ s_filter (snd e) = f /\ no_slash g = true.
+
+Definition spec_ok (sp : spec) : Prop :=
+  NoDup (map fst sp) /\ forall e, In e sp -> good e.
+
+Lemma spec_ok_key c g f s sp : spec_ok sp -> In (c, g, f, s) sp -> no_slash g = true.
+Proof. intros [_ H] Hin. apply H in Hin. cbn in Hin. tauto. Qed.
+
+Lemma in_keys_good c g f sp : spec_ok sp -> In (c, g, f) (map fst sp) -> no_slash g = true.
+Proof.
+  intros Hok Hin. apply in_map_iff in Hin as ([k0 s] & E & Hin). cbn [fst] in E. subst k0.
+  now apply (spec_ok_key c g f s sp).
+Qed.
+
+(* an index key of client c / kind k is present iff the spec has the entry *)
+Lemma mem_keys_of k c g f sp :
+  spec_ok sp -> kind_of g f = k -> no_slash g = true ->
+  mem_str (index_key g f) (keys_of k c sp) = match sp_get (c, g, f) sp with Some _ => true | None => false end.
+Proof.
+  intros Hok Hk Hg.
+  destruct (sp_get (c, g, f) sp) as [s|] eqn:Eg.
+  - apply mem_str_In. apply sp_get_In in Eg. unfold keys_of.
+    apply in_map_iff. exists (c, g, f). split; [reflexivity|].
+    apply filter_In. split.
+    + apply in_map_iff. exists (c, g, f, s). now split.
+    + cbn [selk]. rewrite str_eqb_refl, Hk, kind_eqb_refl. reflexivity.
+  - destruct (mem_str (index_key g f) (keys_of k c sp)) eqn:Em; [|reflexivity].
+    exfalso. apply mem_str_In in Em. unfold keys_of in Em.
+    apply in_map_iff in Em as ([[c2 g2] f2] & Ei & Hin).
+    apply filter_In in Hin as [Hin Hsel]. cbn [selk] in Hsel.
+    apply andb_true_iff in Hsel as [Hc Hk2].
+    apply str_eqb_eq in Hc. subst c2.
+    destruct (kind_eqb_spec (kind_of g2 f2) k) as [Hk2'|]; [|discriminate].
+    cbn [ikey] in Ei.
+    destruct (index_key_inj g2 f2 g f) as [-> ->]; [congruence|now apply (in_keys_good c g2 f2 sp)|exact Hg|exact Ei|].
+    apply sp_get_in_keys in Hin. contradiction.
+Qed.
+
+Lemma keys_of_set k c' c s sp :
+  keys_of k c' (sp_set (c, s_share s, s_filter s) s sp) =
+  if str_eqb c' c && kind_eqb (kind_of (s_share s) (s_filter s)) k then
+    match sp_get (c, s_share s, s_filter s) sp with
+    | Some _ => keys_of k c' sp
+    | None => keys_of k c' sp ++ [index_key (s_share s) (s_filter s)]
+    end
+  else keys_of k c' sp.
+Proof.
+  unfold keys_of. rewrite map_fst_sp_set.
+  destruct (sp_get (c, s_share s, s_filter s) sp).
+  - destruct (str_eqb c' c && kind_eqb (kind_of (s_share s) (s_filter s)) k); reflexivity.
+  - rewrite filter_app, map_app. cbn [filter selk].
+    destruct (str_eqb c' c && kind_eqb (kind_of (s_share s) (s_filter s)) k).
+    + reflexivity.
+    + cbn [map]. now rewrite app_nil_r.
+Qed.
+
+Lemma keys_of_del k c' c g f sp :
+  spec_ok sp -> no_slash g = true ->
+  keys_of k c' (sp_del (c, g, f) sp) =
+  if str_eqb c' c && kind_eqb (kind_of g f) k then del_str (index_key g f) (keys_of k c' sp)
+  else keys_of k c' sp.
+Proof.
+  intros Hok Hg. unfold keys_of. rewrite map_fst_sp_del.
+  rewrite keys_kdel; [reflexivity|].
+  intros [[c2 g2] f2] Hin Hs2 Hs Hi. cbn [selk] in Hs2, Hs. cbn [ikey] in Hi.
+  apply andb_true_iff in Hs2 as [Hc2 Hk2]. apply andb_true_iff in Hs as [Hc Hk].
+  apply str_eqb_eq in Hc2, Hc. subst c2 c.
+  destruct (kind_eqb_spec (kind_of g2 f2) k) as [Hk2'|]; [|discriminate].
+  destruct (kind_eqb_spec (kind_of g f) k) as [Hk'|]; [|discriminate].
+  destruct (index_key_inj g2 f2 g f) as [-> ->]; [congruence|now apply (in_keys_good c' g2 f2 sp)|exact Hg|exact Hi|].
+  reflexivity.
+Qed.
+
+(* ================================================================== *)
+(* 8. the invariant of the whole store                                 *)
+(* ================================================================== *)
+
+Record Inv (d : db) (sp : spec) : Prop := {
+  inv_ok : spec_ok sp;
+  inv_trie : forall k, TInv k (fun key => sp_get key sp) (trie_of k d);
+  inv_idx : forall k c, keys_at c (index_of k d) = keys_of k c sp;
+  inv_idx_nd : forall k, NoDup (map fst (index_of k d));
+  inv_cs : forall k c, aget c (index_of k d) <> None -> aget c (cstats d) <> None;
+  inv_np : panicked d = false }.
+
+Lemma Inv_init : Inv db_init [].
+Proof.
+  constructor.
+  - split; [constructor|intros e []].
+  - intros k. destruct k; apply TInv_empty.
+  - intros k c. destruct k; reflexivity.
+  - intros k. destruct k; constructor.
+  - intros k c H. destruct k; now elim H.
+  - reflexivity.
+Qed.
+
+Definition stat_or_zero (c : cid) (cs : list (cid * stats)) : stats :=
+  match aget c cs with Some x => x | None => zero_stats end.
+
+Lemma sub_cs0_get c idx cs :
+  (aget c idx <> None -> aget c cs <> None) ->
+  forall c', aget c' (sub_cs0 c idx cs) = if str_eqb c' c then Some (stat_or_zero c cs) else aget c' cs.
+Proof.
+  intros Hcs c'. unfold sub_cs0, stat_or_zero.
+  destruct (str_eqb_spec c' c) as [E|E].
+  - subst c'. destruct (aget c idx) as [ks|].
+    + destruct (aget c cs) as [x|] eqn:Ex; [first [reflexivity|exact Ex]|]. exfalso. now apply Hcs.
+    + destruct (aget c cs) as [x|] eqn:Ex; [first [reflexivity|exact Ex]|]. apply aget_aset_same.
+  - destruct (aget c idx) as [ks|]; [reflexivity|].
+    destruct (aget c cs) as [x|] eqn:Ex; [reflexivity|]. now apply aget_aset_other.
+Qed.
+
+(* the client statistics after a subscribe *)
+Lemma sub_cs_get c idx cs (ex : bool) :
+  (aget c idx <> None -> aget c cs <> None) ->
+  let cs0 := sub_cs0 c idx cs in
+  forall c', aget c' (if ex then cs0 else match aget c cs0 with Some x => aset c (bump x) cs0 | None => cs0 end) =
+             if str_eqb c' c then Some (if ex then stat_or_zero c cs else bump (stat_or_zero c cs))
+             else aget c' cs.
+Proof.
+  intros Hcs cs0 c'. pose proof (sub_cs0_get c idx cs Hcs) as H0. fold cs0 in H0.
+  destruct ex; [apply H0|].
+  rewrite (H0 c), str_eqb_refl. rewrite aget_aset, H0.
+  destruct (str_eqb c' c); reflexivity.
+Qed.
+
+Lemma kind_eqb_sym a b : kind_eqb a b = kind_eqb b a.
+Proof. destruct a, b; reflexivity. Qed.
+
+Lemma Inv_sub d sp c s :
+  Inv d sp -> no_slash (s_share s) = true ->
+  Inv (fst (db_subscribe c s d)) (sp_set (c, s_share s, s_filter s) s sp).
+Proof.
+  intros [Hok Htr Hidx Hind Hcs Hnp] Hns.
+  rewrite db_subscribe_nf. cbn [fst].
+  set (k := kind_of (s_share s) (s_filter s)).
+  set (idx := index_of k d).
+  set (key := index_key (s_share s) (s_filter s)).
+  set (ex := mem_str key (keys_at c idx)).
+  assert (Hcsk : aget c idx <> None -> aget c (cstats d) <> None) by apply Hcs.
+  constructor.
+  - destruct Hok as [Hnd Hgood]. split; [now apply NoDup_sp_set|].
+    intros e Hin. apply in_sp_set in Hin as [->|Hin]; [|now apply Hgood].
+    cbn. auto.
+  - intros k'. rewrite trie_of_upd. destruct (kind_eqb_spec k' k) as [E|E].
+    + subst k'. apply (TInv_ext k (get_set (c, s_share s, s_filter s) s (fun key0 => sp_get key0 sp))).
+      * intros c' g f _. unfold get_set. now rewrite sp_get_set.
+      * now apply TInv_sub.
+    + apply (TInv_ext k' (fun key0 => sp_get key0 sp)); [|apply Htr].
+      intros c' g f Hk. rewrite sp_get_set.
+      destruct (skey_eqb_spec (c', g, f) (c, s_share s, s_filter s)) as [E1|E1]; [|reflexivity].
+      injection E1 as _ -> ->. now elim E.
+  - intros k' c'. rewrite index_of_upd, keys_of_set. fold k.
+    destruct (kind_eqb_spec k' k) as [E|E].
+    + subst k'. rewrite kind_eqb_refl, andb_true_r. unfold keys_at at 1. rewrite aget_aset.
+      destruct (str_eqb_spec c' c) as [E1|E1]; [|apply Hidx].
+      subst c'. unfold ex, key, idx. rewrite Hidx.
+      rewrite (mem_keys_of k c (s_share s) (s_filter s) sp Hok eq_refl Hns).
+      destruct (sp_get (c, s_share s, s_filter s) sp); reflexivity.
+    + rewrite kind_eqb_sym. destruct (kind_eqb_spec k' k) as [E'|_]; [contradiction|].
+      rewrite andb_false_r. apply Hidx.
+  - intros k'. rewrite index_of_upd. destruct (kind_eqb_spec k' k) as [E|E]; [|apply Hind].
+    apply NoDup_aset. apply Hind.
+  - intros k' c'. rewrite index_of_upd, cstats_upd. intros Hne.
+    rewrite (sub_cs_get c idx (cstats d) ex Hcsk).
+    destruct (str_eqb_spec c' c) as [E1|E1]; [discriminate|].
+    apply (Hcs k'). destruct (kind_eqb_spec k' k) as [E|E]; [|exact Hne].
+    subst k'. now rewrite aget_aset_other in Hne.
+  - rewrite panicked_upd. destruct ex; [exact Hnp|].
+    rewrite (sub_cs0_get c idx (cstats d) Hcsk c), str_eqb_refl. exact Hnp.
+Qed.
+
+(* ---- unsubscribe ---- *)
+Lemma cut_slash_fst_no_slash (s : str) : no_slash (fst (cut_slash s)) = true.
+Proof.
+  induction s as [|c s IH]; [reflexivity|]. cbn [cut_slash].
+  destruct (N.eqb c SLASH) eqn:E; [reflexivity|].
+  destruct (cut_slash s) as [a b]. cbn [fst] in *. apply no_slash_cons. now split.
+Qed.
+
+Lemma split_topic_no_slash (t : str) : no_slash (fst (split_topic t)) = true.
+Proof.
+  unfold split_topic. destruct (has_prefix SHARE_PREFIX t); [|reflexivity].
+  pose proof (cut_slash_fst_no_slash (skipn 7 t)) as H.
+  destruct (cut_slash (skipn 7 t)) as [g [f|]]; [exact H|reflexivity].
+Qed.
+
+Lemma spec_step_unsub sp c t :
+  spec_step sp (OUnsub c t) = sp_del (c, fst (split_topic t), snd (split_topic t)) sp.
+Proof. cbn [spec_step]. now destruct (split_topic t). Qed.
+
+Lemma del_str_notin k l : mem_str k l = false -> del_str k l = l.
+Proof.
+  induction l as [|x r IH]; cbn [mem_str del_str]; intros H; [reflexivity|].
+  apply orb_false_iff in H as [H1 H2]. rewrite H1. now rewrite IH.
+Qed.
+
+Lemma mem_keys_at_some k c idx : mem_str k (keys_at c idx) = true -> aget c idx <> None.
+Proof. unfold keys_at. destruct (aget c idx); [discriminate|]. cbn. discriminate. Qed.
+
+Lemma aget_upd_some {V} (f : V -> V) c c' (cs : list (str * V)) :
+  aget c' cs <> None ->
+  aget c' (match aget c cs with Some x => aset c (f x) cs | None => cs end) <> None.
+Proof.
+  intros H. destruct (aget c cs) as [x|]; [|exact H].
+  rewrite aget_aset. destruct (str_eqb c' c); [discriminate|exact H].
+Qed.
+
+Lemma Inv_unsub d sp c topic :
+  Inv d sp -> Inv (db_unsubscribe c topic d) (spec_step sp (OUnsub c topic)).
+Proof.
+  intros [Hok Htr Hidx Hind Hcs Hnp].
+  rewrite db_unsubscribe_nf, spec_step_unsub.
+  pose proof (split_topic_no_slash topic) as Hns.
+  set (g := fst (split_topic topic)) in *. set (f := snd (split_topic topic)).
+  set (k := kind_of g f). set (idx := index_of k d).
+  set (key := index_key g f). set (ex := mem_str key (keys_at c idx)).
+  assert (Hex : ex = true -> aget c (cstats d) <> None).
+  { intros E. apply (Hcs k). now apply (mem_keys_at_some key). }
+  constructor.
+  - destruct Hok as [Hnd Hgood]. split; [now apply NoDup_sp_del|].
+    intros e Hin. apply Hgood. now apply in_sp_del in Hin.
+  - intros k'. rewrite trie_of_upd. destruct (kind_eqb_spec k' k) as [E|E].
+    + subst k'. apply (TInv_ext k (get_del (c, g, f) (fun key0 => sp_get key0 sp))).
+      * intros c' g' f' _. unfold get_del. rewrite sp_get_del by apply Hok. reflexivity.
+      * now apply TInv_unsub.
+    + apply (TInv_ext k' (fun key0 => sp_get key0 sp)); [|apply Htr].
+      intros c' g' f' Hk. rewrite sp_get_del_other; [reflexivity|].
+      intros E1. injection E1 as _ -> ->. now elim E.
+  - intros k' c'. rewrite index_of_upd, (keys_of_del k' c' c g f sp Hok Hns). fold k.
+    destruct (kind_eqb_spec k' k) as [E|E].
+    + subst k'. rewrite kind_eqb_refl, andb_true_r.
+      destruct ex eqn:Eex.
+      * unfold keys_at at 1. rewrite aget_aset.
+        destruct (str_eqb_spec c' c) as [E1|E1]; [|apply Hidx].
+        subst c'. unfold key, idx. now rewrite Hidx.
+      * destruct (str_eqb_spec c' c) as [E1|E1]; [|apply Hidx].
+        subst c'. unfold ex, idx in Eex. rewrite Hidx in Eex.
+        fold key. rewrite (del_str_notin _ _ Eex). apply Hidx.
+    + rewrite kind_eqb_sym. destruct (kind_eqb_spec k' k) as [E'|_]; [contradiction|].
+      rewrite andb_false_r. apply Hidx.
+  - intros k'. rewrite index_of_upd. destruct (kind_eqb_spec k' k) as [E|E]; [|apply Hind].
+    destruct ex; [apply NoDup_aset|]; apply Hind.
+  - intros k' c'. rewrite index_of_upd, cstats_upd. intros Hne.
+    assert (Hold : aget c' (cstats d) <> None).
+    { destruct (kind_eqb_spec k' k) as [E|E]; [|now apply (Hcs k')].
+      subst k'. destruct ex eqn:Eex; [|now apply (Hcs k)].
+      rewrite aget_aset in Hne. destruct (str_eqb_spec c' c) as [E1|E1]; [|now apply (Hcs k)].
+      subst c'. now apply Hex. }
+    destruct ex; [|exact Hold]. now apply aget_upd_some.
+  - rewrite panicked_upd. destruct ex; [|exact Hnp].
+    destruct (aget c (cstats d)); [exact Hnp|]. now elim Hex.
+Qed.
+
+(* ---- unsubscribe all, one kind at a time ---- *)
+Definition sp_del_kind (k : kind) (c : cid) (sp : spec) : spec :=
+  filter (fun e => negb (selk k c (fst e))) sp.
+
+Definition get_del_list (L : list skey) (get : getter) : getter :=
+  fun key' => if existsb (skey_eqb key') L then None else get key'.
+
+Lemma unsub_entry_key k c g f T :
+  kind_of g f = k -> no_slash g = true ->
+  unsub_entry (is_shared_kind k) c (index_key g f) T = tunsubscribe (split f) c g T.
+Proof.
+  intros Hk Hg. destruct g as [|a g0].
+  - rewrite kind_of_plain in Hk. cbn [index_key is_empty].
+    destruct (starts_dollar f); subst k; reflexivity.
+  - assert (Hne : a :: g0 <> []) by discriminate.
+    rewrite (kind_of_shared _ f Hne) in Hk. subst k. cbn [is_shared_kind unsub_entry].
+    unfold index_key. cbn [is_empty]. now rewrite (cut_slash_app (a :: g0) f Hg).
+Qed.
+
+Lemma TInv_fold k c : forall (L : list skey) T get,
+  (forall c' g f, In (c', g, f) L -> kind_of g f = k /\ no_slash g = true /\ c' = c) ->
+  TInv k get T ->
+  TInv k (get_del_list L get)
+       (fold_left (fun t key => unsub_entry (is_shared_kind k) c key t) (map ikey L) T).
+Proof.
+  induction L as [|[[c0 g] f] L IH]; intros T get HL HT.
+  - cbn [map fold_left]. apply (TInv_ext k get); [reflexivity|exact HT].
+  - cbn [map fold_left ikey].
+    destruct (HL c0 g f (or_introl eq_refl)) as (Hk & Hg & ->).
+    rewrite (unsub_entry_key k c g f T Hk Hg).
+    apply (TInv_ext k (get_del_list L (get_del (c, g, f) get))).
+    + intros c' g' f' _. unfold get_del_list, get_del. cbn [existsb].
+      destruct (skey_eqb (c', g', f') (c, g, f)); cbn [orb];
+        destruct (existsb (skey_eqb (c', g', f')) L); reflexivity.
+    + apply IH; [|now apply TInv_unsub].
+      intros c' g' f' Hin. apply HL. now right.
+Qed.
+
+Lemma existsb_skey key L : existsb (skey_eqb key) L = true <-> In key L.
+Proof.
+  rewrite existsb_exists. split.
+  - intros (x & Hin & E). destruct (skey_eqb_spec key x); [now subst|discriminate].
+  - intros Hin. exists key. split; [exact Hin|apply skey_eqb_refl].
+Qed.
+
+Lemma get_del_list_kind k c sp key' :
+  get_del_list (filter (selk k c) (map fst sp)) (fun key0 => sp_get key0 sp) key' =
+  sp_get key' (sp_del_kind k c sp).
+Proof.
+  unfold get_del_list, sp_del_kind.
+  rewrite (sp_get_filter (fun key => negb (selk k c key))).
+  destruct (selk k c key') eqn:Es; cbn [negb].
+  - destruct (existsb (skey_eqb key') (filter (selk k c) (map fst sp))) eqn:Ee; [reflexivity|].
+    apply sp_get_notin. intros Hin.
+    assert (H : existsb (skey_eqb key') (filter (selk k c) (map fst sp)) = true).
+    { apply existsb_skey. apply filter_In. now split. }
+    congruence.
+  - destruct (existsb (skey_eqb key') (filter (selk k c) (map fst sp))) eqn:Ee; [|reflexivity].
+    apply existsb_skey in Ee. apply filter_In in Ee as [_ Ee]. congruence.
+Qed.
+
+Lemma filter_filter_imp {A} (p q : A -> bool) (l : list A) :
+  (forall x, p x = true -> q x = true) -> filter p (filter q l) = filter p l.
+Proof.
+  intros H. induction l as [|x r IH]; [reflexivity|]. cbn [filter].
+  destruct (q x) eqn:Eq; cbn [filter].
+  - now rewrite IH.
+  - destruct (p x) eqn:Ep; [|exact IH]. apply H in Ep. congruence.
+Qed.
+
+Lemma filter_filter_neg {A} (p : A -> bool) (l : list A) :
+  filter p (filter (fun x => negb (p x)) l) = [].
+Proof.
+  induction l as [|x r IH]; [reflexivity|]. cbn [filter].
+  destruct (p x) eqn:Ep; cbn [negb filter]; [exact IH|]. now rewrite Ep.
+Qed.
+
+Lemma keys_of_del_kind k' c' k c sp :
+  keys_of k' c' (sp_del_kind k c sp) =
+  if kind_eqb k' k && str_eqb c' c then [] else keys_of k' c' sp.
+Proof.
+  unfold keys_of, sp_del_kind.
+  rewrite (map_fst_filter (fun key => negb (selk k c key))).
+  destruct (kind_eqb_spec k' k) as [Ek|Ek]; cbn [andb].
+  - subst k'. destruct (str_eqb_spec c' c) as [Ec|Ec].
+    + subst c'. now rewrite filter_filter_neg.
+    + rewrite filter_filter_imp; [reflexivity|].
+      intros [[c2 g2] f2] Hs. cbn [selk] in *. apply andb_true_iff in Hs as [Hs _].
+      apply str_eqb_eq in Hs. subst c2.
+      destruct (str_eqb_spec c c') as [E|E]; [congruence|reflexivity].
+  - rewrite filter_filter_imp; [reflexivity|].
+    intros [[c2 g2] f2] Hs. cbn [selk] in *. apply andb_true_iff in Hs as [_ Hs].
+    destruct (kind_eqb_spec (kind_of g2 f2) k') as [E|]; [|discriminate].
+    destruct (kind_eqb_spec (kind_of g2 f2) k) as [E'|E']; [congruence|].
+    now rewrite andb_false_r.
+Qed.
+
+Lemma Inv_unsub_all_kind d sp k c :
+  Inv d sp -> Inv (db_unsub_all_kind k c d) (sp_del_kind k c sp).
+Proof.
+  intros [Hok Htr Hidx Hind Hcs Hnp].
+  rewrite db_unsub_all_kind_nf.
+  constructor.
+  - destruct Hok as [Hnd Hgood]. split.
+    + unfold sp_del_kind. now apply NoDup_map_filter.
+    + intros e Hin. apply filter_In in Hin as [Hin _]. now apply Hgood.
+  - intros k'. rewrite trie_of_upd. destruct (kind_eqb_spec k' k) as [E|E].
+    + subst k'. rewrite Hidx. unfold keys_of.
+      apply (TInv_ext k (get_del_list (filter (selk k c) (map fst sp)) (fun key0 => sp_get key0 sp))).
+      * intros c' g' f' _. apply get_del_list_kind.
+      * apply TInv_fold; [|apply Htr].
+        intros c' g f Hin. apply filter_In in Hin as [Hin Hs]. cbn [selk] in Hs.
+        apply andb_true_iff in Hs as [Hc Hk]. apply str_eqb_eq in Hc.
+        destruct (kind_eqb_spec (kind_of g f) k) as [Hk'|]; [|discriminate].
+        split; [exact Hk'|]. split; [now apply (in_keys_good c' g f sp)|now symmetry].
+    + apply (TInv_ext k' (fun key0 => sp_get key0 sp)); [|apply Htr].
+      intros c' g' f' Hk. unfold sp_del_kind.
+      rewrite (sp_get_filter (fun key => negb (selk k c key))). cbn [selk].
+      rewrite Hk. destruct (kind_eqb_spec k' k) as [E'|_]; [contradiction|].
+      now rewrite andb_false_r.
+  - intros k' c'. rewrite index_of_upd, keys_of_del_kind.
+    destruct (kind_eqb_spec k' k) as [E|E]; cbn [andb]; [|apply Hidx].
+    subst k'. unfold keys_at at 1. rewrite aget_adel by apply Hind.
+    destruct (str_eqb c' c); [reflexivity|apply Hidx].
+  - intros k'. rewrite index_of_upd. destruct (kind_eqb_spec k' k) as [E|E]; [|apply Hind].
+    apply NoDup_adel. apply Hind.
+  - intros k' c'. rewrite index_of_upd, cstats_upd. intros Hne.
+    apply aget_upd_some. apply (Hcs k').
+    destruct (kind_eqb_spec k' k) as [E|E]; [|exact Hne].
+    subst k'. rewrite aget_adel in Hne by apply Hind.
+    destruct (str_eqb c' c); [now elim Hne|exact Hne].
+  - rewrite panicked_upd. exact Hnp.
+Qed.
+
+Lemma filter_filter {A} (p q : A -> bool) (l : list A) :
+  filter q (filter p l) = filter (fun x => p x && q x) l.
+Proof.
+  induction l as [|x r IH]; [reflexivity|]. cbn [filter].
+  destruct (p x); cbn [andb filter]; [|exact IH]. destruct (q x); now rewrite IH.
+Qed.
+
+Lemma sp_del_client_kinds c sp :
+  sp_del_client c sp = sp_del_kind KShared c (sp_del_kind KSys c (sp_del_kind KUser c sp)).
+Proof.
+  unfold sp_del_client, sp_del_kind. rewrite !filter_filter.
+  apply filter_ext. intros [[[c' g] f] s]. cbn [fst selk].
+  destruct (str_eqb c c'); cbn [andb negb]; [|reflexivity].
+  destruct (kind_of g f); reflexivity.
+Qed.
+
+Lemma Inv_step d sp o : Inv d sp -> wf_op o = true -> Inv (db_step d o) (spec_step sp o).
+Proof.
+  intros HI Hwf. destruct o as [c s|c t|c].
+  - cbn [db_step spec_step]. apply Inv_sub; [exact HI|].
+    cbn [wf_op] in Hwf. now apply andb_true_iff in Hwf as [_ Hwf].
+  - cbn [db_step]. now apply Inv_unsub.
+  - cbn [db_step spec_step]. rewrite sp_del_client_kinds. unfold db_unsubscribe_all.
+    now repeat apply Inv_unsub_all_kind.
+Qed.
+
+Lemma Inv_fold ops : forall d sp, Inv d sp -> wf_ops ops = true ->
+  Inv (fold_left db_step ops d) (fold_left spec_step ops sp).
+Proof.
+  induction ops as [|o r IH]; intros d sp HI Hwf; [exact HI|].
+  cbn [wf_ops forallb] in Hwf. apply andb_true_iff in Hwf as [Ho Hr].
+  cbn [fold_left]. apply IH; [now apply Inv_step|exact Hr].
+Qed.
+
+Lemma Inv_run ops : wf_ops ops = true -> Inv (db_run ops) (spec_run ops).
+Proof. intros H. apply Inv_fold; [apply Inv_init|exact H]. Qed.
+
+Lemma never_panics ops : wf_ops ops = true -> panicked (db_run ops) = false.
+Proof. intros H. apply (inv_np _ _ (Inv_run ops H)). Qed.
+
+(* ================================================================== *)
+(* 9. entries found at a node, and by topic matching                   *)
+(* ================================================================== *)
+
+Lemma sp_get_good c g f s sp :
+  spec_ok sp -> sp_get (c, g, f) sp = Some s -> s_share s = g /\ s_filter s = f.
+Proof.
+  intros [_ Hgood] H. apply sp_get_In in H. apply Hgood in H. cbn in H. tauto.
+Qed.
+
+Lemma NoDup_flat_map {A B} (F : A -> list B) (L : list A) :
+  NoDup L -> (forall a, In a L -> NoDup (F a)) ->
+  (forall a b y, In a L -> In b L -> In y (F a) -> In y (F b) -> a = b) ->
+  NoDup (flat_map F L).
+Proof.
+  induction L as [|a r IH]; intros Hnd Hone Hdis; [constructor|].
+  inversion Hnd as [|x xs Hx Hnd']; subst. cbn [flat_map].
+  apply NoDup_app_disjoint.
+  - apply Hone. now left.
+  - apply IH; [exact Hnd'| |].
+    + intros b Hb. apply Hone. now right.
+    + intros b1 b2 y H1 H2. apply Hdis; now right.
+  - intros y Hy Hin. apply in_flat_map in Hin as (b & Hb & Hyb).
+    assert (E : a = b) by (apply (Hdis a b y); [now left|now right|exact Hy|exact Hyb]).
+    subst b. contradiction.
+Qed.
+
+Section Entries.
+  Variables (k : kind) (sp : spec).
+  Hypothesis Hok : spec_ok sp.
+  Let get : getter := fun key => sp_get key sp.
+
+  Lemma obs_entry p x g c s :
+    NInv k get p x -> In (c, s) (obs g x) ->
+    s_share s = g /\ p = split (s_filter s) /\ kind_of (s_share s) (s_filter s) = k /\
+    sp_get (c, s_share s, s_filter s) sp = Some s.
+  Proof.
+    intros HN Hin.
+    assert (Hne : obs g x <> []) by (intros E; rewrite E in Hin; destruct Hin).
+    destruct (ni_name _ _ _ _ HN g Hne) as (_ & f & Hp & Hk).
+    pose proof (In_aget c s (obs g x) (ni_nd _ _ _ _ HN g) Hin) as Hget.
+    rewrite (ni_get _ _ _ _ HN g f c Hp Hk) in Hget. unfold get in Hget.
+    destruct (sp_get_good c g f s sp Hok Hget) as [E1 E2]. subst g f. tauto.
+  Qed.
+
+  Lemma in_shared_obs p x g l :
+    NInv k get p x -> In (g, l) (n_shared x) -> l <> [] -> g <> [] /\ obs g x = l.
+  Proof.
+    intros HN Hin Hl.
+    pose proof (In_aget g l (n_shared x) (ni_shnd _ _ _ _ HN) Hin) as Hget.
+    assert (Hgrp : grp g x = l) by (unfold grp; now rewrite Hget).
+    assert (Hg : g <> []).
+    { intros ->. pose proof (ni_pure _ _ _ _ HN) as Hp. destruct k.
+      - rewrite Hp in Hin. destruct Hin.
+      - rewrite Hp in Hin. destruct Hin.
+      - destruct Hp as [_ Hp]. congruence. }
+    split; [exact Hg|]. now rewrite obs_ne.
+  Qed.
+
+  Lemma entry_sound p x c s :
+    NInv k get p x -> In (c, s) (set_rs x) ->
+    p = split (s_filter s) /\ kind_of (s_share s) (s_filter s) = k /\
+    sp_get (c, s_share s, s_filter s) sp = Some s.
+  Proof.
+    intros HN Hin. unfold set_rs in Hin. apply in_app_or in Hin as [Hin|Hin].
+    - rewrite <- obs_nil in Hin. now destruct (obs_entry p x [] c s HN Hin) as (_ & H).
+    - apply in_flat_map in Hin as ([g l] & Hgl & Hin). cbn [snd] in Hin.
+      assert (Hl : l <> []) by (intros E; rewrite E in Hin; destruct Hin).
+      destruct (in_shared_obs p x g l HN Hgl Hl) as [_ Ho]. rewrite <- Ho in Hin.
+      now destruct (obs_entry p x g c s HN Hin) as (_ & H).
+  Qed.
+
+  Lemma obs_in_set_rs g x e : In e (obs g x) -> In e (set_rs x).
+  Proof.
+    unfold obs, set_rs, grp. intros Hin. apply in_or_app.
+    destruct (is_empty g); [now left|right].
+    destruct (aget g (n_shared x)) as [l|] eqn:El; [|destruct Hin].
+    apply aget_In in El. apply in_flat_map. exists (g, l). now split.
+  Qed.
+
+  Lemma entry_complete x c g f s :
+    NInv k get (split f) x -> kind_of g f = k -> sp_get (c, g, f) sp = Some s ->
+    In (c, s) (obs g x).
+  Proof.
+    intros HN Hk Hget. apply aget_In.
+    now rewrite (ni_get _ _ _ _ HN g f c eq_refl Hk).
+  Qed.
+
+  Lemma set_rs_nodup p x : NInv k get p x -> NoDup (set_rs x).
+  Proof.
+    intros HN. unfold set_rs. apply NoDup_app_disjoint.
+    - apply NoDup_keys_NoDup. exact (ni_nd _ _ _ _ HN []).
+    - apply NoDup_flat_map.
+      + apply NoDup_keys_NoDup. exact (ni_shnd _ _ _ _ HN).
+      + intros [g l] Hgl. cbn [snd]. destruct l as [|e l']; [constructor|].
+        destruct (in_shared_obs p x g (e :: l') HN Hgl) as [_ Ho]; [discriminate|].
+        rewrite <- Ho. apply NoDup_keys_NoDup. exact (ni_nd _ _ _ _ HN g).
+      + intros [g1 l1] [g2 l2] [c s] H1 H2 Hy1 Hy2. cbn [snd] in Hy1, Hy2.
+        assert (Hl1 : l1 <> []) by (intros E; rewrite E in Hy1; destruct Hy1).
+        assert (Hl2 : l2 <> []) by (intros E; rewrite E in Hy2; destruct Hy2).
+        destruct (in_shared_obs p x g1 l1 HN H1 Hl1) as [_ Ho1].
+        destruct (in_shared_obs p x g2 l2 HN H2 Hl2) as [_ Ho2].
+        rewrite <- Ho1 in Hy1. rewrite <- Ho2 in Hy2.
+        destruct (obs_entry p x g1 c s HN Hy1) as (E1 & _).
+        destruct (obs_entry p x g2 c s HN Hy2) as (E2 & _).
+        assert (E : g1 = g2) by congruence. subst g2. congruence.
+    - intros [c s] Hy1 Hy2.
+      rewrite <- obs_nil in Hy1. destruct (obs_entry p x [] c s HN Hy1) as (E1 & _).
+      apply in_flat_map in Hy2 as ([g l] & Hgl & Hin). cbn [snd] in Hin.
+      assert (Hl : l <> []) by (intros E; rewrite E in Hin; destruct Hin).
+      destruct (in_shared_obs p x g l HN Hgl Hl) as [Hg Ho]. rewrite <- Ho in Hin.
+      destruct (obs_entry p x g c s HN Hin) as (E2 & _). congruence.
+  Qed.
+
+  Lemma tmatch_exact T ts :
+    TInv k get T -> ts <> [] -> no_wild_levels ts = true ->
+    NoDup (tmatch ts T) /\
+    forall c s, In (c, s) (tmatch ts T) <->
+      (kind_of (s_share s) (s_filter s) = k /\ sp_get (c, s_share s, s_filter s) sp = Some s /\
+       lm ts (split (s_filter s)) = true).
+  Proof.
+    intros [Hwf HN] Hne Hnw. rewrite tmatch_cands. split.
+    - apply NoDup_flat_map.
+      + now apply cands_nodup.
+      + intros p _. apply (set_rs_nodup p). apply HN.
+      + intros p1 p2 [c s] _ _ H1 H2.
+        destruct (entry_sound p1 _ c s (HN p1) H1) as (E1 & _).
+        destruct (entry_sound p2 _ c s (HN p2) H2) as (E2 & _). congruence.
+    - intros c s. rewrite in_flat_map. split.
+      + intros (p & Hp & Hin). destruct (entry_sound p _ c s (HN p) Hin) as (E1 & Hk & Hget).
+        split; [exact Hk|]. split; [exact Hget|]. subst p.
+        now apply (cands_lm_nowild ts _ Hne Hnw).
+      + intros (Hk & Hget & Hlm). exists (split (s_filter s)). split.
+        * now apply cands_complete.
+        * apply (obs_in_set_rs (s_share s)).
+          apply (entry_complete _ c (s_share s) (s_filter s) s (HN _) Hk Hget).
+  Qed.
+End Entries.
+
+(* the optional client restriction of a query *)
+Definition cfilter (c : cid) (l : list (cid * sub)) : list (cid * sub) :=
+  if negb (is_empty c) then of_client c l else l.
+
+Lemma in_cfilter c c' s l : In (c', s) (cfilter c l) <-> In (c', s) l /\ want_client c c'.
+Proof.
+  unfold cfilter, want_client. destruct c as [|a c0]; cbn [is_empty negb].
+  - split; [intros H; split; [exact H|now left]|tauto].
+  - rewrite in_of_client. split; intros [H1 H2]; split; try exact H1.
+    + now right.
+    + destruct H2 as [H2|H2]; [discriminate|exact H2].
+Qed.
+
+Lemma NoDup_cfilter c l : NoDup l -> NoDup (cfilter c l).
+Proof. intros H. unfold cfilter. destruct (negb (is_empty c)); [now apply NoDup_filter|exact H]. Qed.
+
+Lemma cfilter_nil c : cfilter c [] = [].
+Proof. unfold cfilter. destruct (negb (is_empty c)); reflexivity. Qed.
+
+Lemma topic_match_kind t f :
+  topic_match t f = true -> starts_dollar t = starts_dollar f /\ lm (split t) (split f) = true.
+Proof.
+  intros H. destruct (starts_dollar t) eqn:Et, (starts_dollar f) eqn:Ef.
+  - split; [reflexivity|]. rewrite <- topic_match_same_kind; [exact H|congruence].
+  - rewrite (dollar_topic_plain_filter t f Et Ef) in H. discriminate.
+  - rewrite (plain_topic_dollar_filter t f Et Ef) in H. discriminate.
+  - split; [reflexivity|]. rewrite <- topic_match_same_kind; [exact H|congruence].
+Qed.
+
+Definition plain_kind (t : str) : kind := if starts_dollar t then KSys else KUser.
+
+Lemma plain_kind_ns t : plain_kind t <> KShared.
+Proof. unfold plain_kind. destruct (starts_dollar t); discriminate. Qed.
+
+Lemma kind_of_plain_kind g f t :
+  kind_of g f = plain_kind t <-> g = [] /\ starts_dollar f = starts_dollar t.
+Proof.
+  split.
+  - intros H. assert (E : g = []).
+    { apply (kind_of_nonshared_inv g f). rewrite H. apply plain_kind_ns. }
+    subst g. split; [reflexivity|]. rewrite kind_of_plain in H. unfold plain_kind in H.
+    destruct (starts_dollar f), (starts_dollar t); congruence.
+  - intros [-> E]. rewrite kind_of_plain. unfold plain_kind. now rewrite E.
+Qed.
+
+Lemma db_iterate_plain_topic o d :
+  io_shared o = false -> io_sys o = true -> io_nonshared o = true -> io_topic o <> [] ->
+  db_iterate o d =
+  IOk (iterate_nonshared o (index_of (plain_kind (io_topic o)) d) (trie_of (plain_kind (io_topic o)) d)).
+Proof.
+  intros H1 H2 H3 H4. unfold db_iterate, plain_kind. rewrite H1, H2, H3.
+  apply is_empty_false in H4. rewrite H4. cbn [negb andb app].
+  destruct (starts_dollar (io_topic o)); cbn [negb andb app trie_of index_of]; [reflexivity|].
+  now rewrite app_nil_r.
+Qed.
+
+(* ================================================================== *)
+(* 10. C02: lookups in the user / system tries                         *)
+(* ================================================================== *)
+
+Lemma lookup_topic_exact ops t c :
+  wf_ops ops = true -> t <> [] -> no_wild_levels (split t) = true ->
+  exists l, db_iterate (q_topic t c) (db_run ops) = IOk (some_ents l) /\ NoDup l /\
+    forall c' s, In (c', s) l <->
+      (sp_get (c', [], s_filter s) (spec_run ops) = Some s /\ topic_match t (s_filter s) = true /\ want_client c c').
+Proof.
+  intros Hwf Ht Hnw. pose proof (Inv_run ops Hwf) as HI.
+  set (d := db_run ops) in *. set (sp := spec_run ops) in *.
+  pose proof (inv_ok _ _ HI) as Hok.
+  set (k := plain_kind t).
+  destruct (tmatch_exact k sp Hok (trie_of k d) (split t) (inv_trie _ _ HI k) (split_nonempty t) Hnw)
+    as [Hnd Hin].
+  exists (cfilter c (tmatch (split t) (trie_of k d))). split; [|split].
+  - rewrite db_iterate_plain_topic by (try reflexivity; exact Ht).
+    cbn [q_topic io_topic]. fold k. unfold iterate_nonshared, cfilter. cbn [q_topic io_topic io_mt io_client].
+    apply is_empty_false in Ht. rewrite Ht. cbn [negb].
+    destruct (negb (is_empty c)); reflexivity.
+  - now apply NoDup_cfilter.
+  - intros c' s. rewrite in_cfilter, Hin. split.
+    + intros [(Hk & Hget & Hlm) Hw]. apply kind_of_plain_kind in Hk as [Hg Hd].
+      rewrite Hg in Hget. split; [exact Hget|]. split; [|exact Hw].
+      rewrite topic_match_same_kind; [exact Hlm|now symmetry].
+    + intros (Hget & Htm & Hw). split; [|exact Hw].
+      destruct (sp_get_good _ _ _ _ _ Hok Hget) as [Hg _].
+      apply topic_match_kind in Htm as [Hd Hlm].
+      split; [apply kind_of_plain_kind; split; [exact Hg|now symmetry]|].
+      split; [now rewrite Hg|exact Hlm].
+Qed.
+
+(* ---- lookups by filter name ---- *)
+Lemma tfind_some f T x : tfind f T = Some x -> nd (split f) T = x.
+Proof.
+  unfold tfind. rewrite nd_tget. destruct (tget (split f) T) as [y|]; [|discriminate].
+  destruct (str_eqb (n_tname y) f); [|discriminate]. congruence.
+Qed.
+
+Lemma tfind_none k get f T g :
+  TInv k get T -> tfind f T = None -> obs g (nd (split f) T) = [].
+Proof.
+  intros [_ HN] Hf. specialize (HN (split f)). unfold tfind in Hf. rewrite nd_tget in *.
+  destruct (tget (split f) T) as [y|]; [|apply obs_empty_node].
+  destruct (str_eqb_spec (n_tname y) f) as [E|E]; [discriminate|].
+  destruct (obs g y) as [|e r] eqn:Eo; [reflexivity|]. exfalso.
+  destruct (ni_name _ _ _ _ HN g) as [Hn _]; [rewrite Eo; discriminate|].
+  rewrite join_split in Hn. contradiction.
+Qed.
+
+Lemma lookup_name_exact ops f c :
+  wf_ops ops = true -> f <> [] ->
+  exists l, db_iterate (q_name f c) (db_run ops) = IOk (some_ents l) /\ NoDup l /\
+    forall c' s, In (c', s) l <-> (sp_get (c', [], f) (spec_run ops) = Some s /\ want_client c c').
+Proof.
+  intros Hwf Hf. pose proof (Inv_run ops Hwf) as HI.
+  set (d := db_run ops) in *. set (sp := spec_run ops) in *.
+  pose proof (inv_ok _ _ HI) as Hok.
+  set (k := plain_kind f). set (T := trie_of k d).
+  pose proof (inv_trie _ _ HI k) as HT. fold T in HT.
+  pose proof (proj2 HT (split f)) as HN.
+  assert (Hsh : n_shared (nd (split f) T) = []).
+  { pose proof (ni_pure _ _ _ _ HN) as Hp. pose proof (plain_kind_ns f) as Hk. fold k in Hk.
+    destruct k; [exact Hp|exact Hp|now elim Hk]. }
+  assert (Hkf : kind_of [] f = k) by (apply kind_of_plain_kind; now split).
+  exists (cfilter c (n_clients (nd (split f) T))). split; [|split].
+  - rewrite db_iterate_plain_topic by (try reflexivity; exact Hf).
+    cbn [q_name io_topic]. fold k. fold T. unfold iterate_nonshared, cfilter.
+    cbn [q_name io_topic io_mt io_client].
+    pose proof Hf as Hf'. apply is_empty_false in Hf'. rewrite Hf'. cbn [negb].
+    destruct (tfind f T) as [x|] eqn:Ef.
+    + apply tfind_some in Ef. rewrite Ef in *. unfold set_rs. rewrite Hsh. cbn [flat_map].
+      rewrite !app_nil_r. destruct (negb (is_empty c)); reflexivity.
+    + pose proof (tfind_none k _ f T [] HT Ef) as Ho. rewrite obs_nil in Ho. rewrite Ho.
+      destruct (negb (is_empty c)); reflexivity.
+  - apply NoDup_cfilter. apply NoDup_keys_NoDup. exact (ni_nd _ _ _ _ HN []).
+  - intros c' s. rewrite in_cfilter. rewrite <- obs_nil. split.
+    + intros [Hin Hw]. split; [|exact Hw].
+      destruct (obs_entry k sp Hok _ _ [] c' s HN Hin) as (Hg & Hp & _ & Hget).
+      apply split_inj in Hp. now rewrite Hg, <- Hp in Hget.
+    + intros [Hget Hw]. split; [|exact Hw].
+      now apply (entry_complete k sp _ c' [] f s HN Hkf).
+Qed.
+
+(* ---- lookups by client ---- *)
+Definition ents_of (k : kind) (c : cid) (sp : spec) : list (cid * sub) :=
+  map (fun e => (c, snd e)) (filter (fun e => selk k c (fst e)) sp).
+
+Lemma in_ents_of k c sp c' s :
+  spec_ok sp ->
+  (In (c', s) (ents_of k c sp) <->
+   c' = c /\ kind_of (s_share s) (s_filter s) = k /\ sp_get (c, s_share s, s_filter s) sp = Some s).
+Proof.
+  intros Hok. unfold ents_of. rewrite in_map_iff. split.
+  - intros ([[[c1 g] f] s0] & E & Hin). cbn [snd] in E. injection E as <- ->.
+    apply filter_In in Hin as [Hin Hs]. cbn [fst selk] in Hs.
+    apply andb_true_iff in Hs as [Hc Hk]. apply str_eqb_eq in Hc. subst c1.
+    destruct (kind_eqb_spec (kind_of g f) k) as [Hk'|]; [|discriminate].
+    pose proof (In_sp_get _ _ _ (proj1 Hok) Hin) as Hget.
+    destruct (sp_get_good _ _ _ _ _ Hok Hget) as [-> ->]. tauto.
+  - intros (-> & Hk & Hget). exists (c, s_share s, s_filter s, s). split; [reflexivity|].
+    apply filter_In. split; [now apply sp_get_In|].
+    cbn [fst selk]. now rewrite str_eqb_refl, Hk, kind_eqb_refl.
+Qed.
+
+Lemma nodup_ents_of k c sp : spec_ok sp -> NoDup (ents_of k c sp).
+Proof.
+  intros [Hnd Hgood]. unfold ents_of.
+  induction sp as [|e r IH]; cbn [filter map]; [constructor|].
+  cbn [map] in Hnd. inversion Hnd as [|x xs Hx Hnd']; subst.
+  assert (Hgood' : forall e0, In e0 r -> good e0) by (intros e0 H0; apply Hgood; now right).
+  destruct (selk k c (fst e)) eqn:Es; [|now apply IH].
+  cbn [map]. constructor; [|now apply IH].
+  intros Hin. apply in_map_iff in Hin as (e2 & E & Hin2).
+  apply filter_In in Hin2 as [Hin2 Hs2].
+  apply Hx. apply in_map_iff. exists e2. split; [|exact Hin2].
+  pose proof (Hgood e (or_introl eq_refl)) as G1. pose proof (Hgood' e2 Hin2) as G2.
+  destruct e as [[[c1 g1] f1] s1], e2 as [[[c2 g2] f2] s2]. cbn [fst snd good selk] in *.
+  injection E as ->.
+  apply andb_true_iff in Es as [Ec1 _]. apply andb_true_iff in Hs2 as [Ec2 _].
+  apply str_eqb_eq in Ec1, Ec2. subst c1 c2.
+  destruct G1 as (<- & <- & _). destruct G2 as (<- & <- & _). reflexivity.
+Qed.
+
+Lemma client_keys_map k c sp (F : str -> list ient) :
+  (forall g f s, In (c, g, f, s) sp -> kind_of g f = k -> F (index_key g f) = [(c, Some s)]) ->
+  flat_map F (keys_of k c sp) = some_ents (ents_of k c sp).
+Proof.
+  unfold keys_of, ents_of. induction sp as [|[[[c1 g] f] s] r IH]; intros HF; [reflexivity|].
+  assert (IH' := IH (fun g0 f0 s0 Hin => HF g0 f0 s0 (or_intror Hin))). clear IH.
+  cbn [map fst filter]. destruct (selk k c (c1, g, f)) eqn:Es; [|exact IH'].
+  cbn [map flat_map ikey snd some_ents]. cbn [selk] in Es.
+  apply andb_true_iff in Es as [Hc Hk]. apply str_eqb_eq in Hc. subst c1.
+  destruct (kind_eqb_spec (kind_of g f) k) as [Hk'|]; [|discriminate].
+  rewrite (HF g f s (or_introl eq_refl) Hk'). cbn [app]. f_equal. exact IH'.
+Qed.
+
+Lemma map_flat_map {A B} (f : A -> B) (l : list A) : map f l = flat_map (fun x => [f x]) l.
+Proof. induction l as [|x r IH]; [reflexivity|]. cbn [map flat_map app]. now rewrite IH. Qed.
+
+Lemma tget_clients c p T :
+  match tget p T with Some x => aget c (n_clients x) | None => None end = aget c (n_clients (nd p T)).
+Proof. rewrite nd_tget. destruct (tget p T); reflexivity. Qed.
+
+Lemma iterate_nonshared_client c k d sp :
+  Inv d sp -> c <> [] -> k <> KShared ->
+  iterate_nonshared (q_client c) (index_of k d) (trie_of k d) = some_ents (ents_of k c sp).
+Proof.
+  intros HI Hc Hk. unfold iterate_nonshared. cbn [q_client io_topic io_client is_empty negb].
+  apply is_empty_false in Hc. rewrite Hc. cbn [negb].
+  transitivity (flat_map (fun key => [(c, match tget (split key) (trie_of k d) with
+                                          | Some x => aget c (n_clients x)
+                                          | None => None
+                                          end)]) (keys_at c (index_of k d))).
+  { unfold keys_at. destruct (aget c (index_of k d)); [apply map_flat_map|reflexivity]. }
+  rewrite (inv_idx _ _ HI). apply client_keys_map.
+  intros g f s Hin Hkf. rewrite tget_clients.
+  assert (Hg : g = []) by (apply (kind_of_nonshared_inv g f); congruence). subst g.
+  cbn [index_key is_empty].
+  pose proof (proj2 (inv_trie _ _ HI k) (split f)) as HN.
+  rewrite <- obs_nil. rewrite (ni_get _ _ _ _ HN [] f c eq_refl Hkf).
+  do 2 f_equal. apply In_sp_get; [apply (inv_ok _ _ HI)|exact Hin].
+Qed.
+
+Lemma lookup_client_exact ops c :
+  wf_ops ops = true -> c <> [] ->
+  exists l, db_iterate (q_client c) (db_run ops) = IOk (some_ents l) /\ NoDup l /\
+    forall c' s, In (c', s) l <-> (c' = c /\ sp_get (c, [], s_filter s) (spec_run ops) = Some s).
+Proof.
+  intros Hwf Hc. pose proof (Inv_run ops Hwf) as HI.
+  set (d := db_run ops) in *. set (sp := spec_run ops) in *.
+  pose proof (inv_ok _ _ HI) as Hok.
+  exists (ents_of KUser c sp ++ ents_of KSys c sp). split; [|split].
+  - unfold db_iterate. cbn [q_client io_shared io_topic io_nonshared io_sys is_empty negb andb app].
+    change (userI d) with (index_of KUser d). change (userT d) with (trie_of KUser d).
+    change (sysI d) with (index_of KSys d). change (sysT d) with (trie_of KSys d).
+    rewrite (iterate_nonshared_client c KUser d sp HI Hc) by discriminate.
+    rewrite (iterate_nonshared_client c KSys d sp HI Hc) by discriminate.
+    unfold some_ents. now rewrite map_app.
+  - apply NoDup_app_disjoint; [now apply nodup_ents_of|now apply nodup_ents_of|].
+    intros [c' s] H1 H2. apply (in_ents_of _ _ _ _ _ Hok) in H1, H2.
+    destruct H1 as (_ & H1 & _), H2 as (_ & H2 & _). congruence.
+  - intros c' s. rewrite in_app_iff, !(in_ents_of _ _ _ _ _ Hok). split.
+    + intros [(-> & Hk & Hget)|(-> & Hk & Hget)]; (split; [reflexivity|]).
+      * assert (Hg : s_share s = []) by (apply (kind_of_nonshared_inv _ (s_filter s)); congruence).
+        now rewrite Hg in Hget.
+      * assert (Hg : s_share s = []) by (apply (kind_of_nonshared_inv _ (s_filter s)); congruence).
+        now rewrite Hg in Hget.
+    + intros [-> Hget]. destruct (sp_get_good _ _ _ _ _ Hok Hget) as [Hg _].
+      rewrite Hg, kind_of_plain. destruct (starts_dollar (s_filter s)); [right|left]; tauto.
+Qed.
+
+(* ================================================================== *)
+(* 11. C11: lookups in the shared trie                                 *)
+(* ================================================================== *)
+
+Lemma db_iterate_shared_only o d :
+  io_shared o = true -> io_sys o = false -> io_nonshared o = false ->
+  db_iterate o d = iterate_shared o (index_of KShared d) (trie_of KShared d).
+Proof.
+  intros H1 H2 H3. unfold db_iterate. rewrite H1, H2, H3. cbn [andb trie_of index_of].
+  destruct (iterate_shared o (sharedI d) (sharedT d)) as [l|]; [|reflexivity].
+  cbn [app]. now rewrite app_nil_r.
+Qed.
+
+Lemma sh_lookup_topic_exact ops t c :
+  wf_ops ops = true -> t <> [] -> no_wild_levels (split t) = true ->
+  exists l, db_iterate (q_sh_topic t c) (db_run ops) = IOk (some_ents l) /\ NoDup l /\
+    forall c' s, In (c', s) l <->
+      (s_share s <> [] /\ sp_get (c', s_share s, s_filter s) (spec_run ops) = Some s /\
+       lm (split t) (split (s_filter s)) = true /\ want_client c c').
+Proof.
+  intros Hwf Ht Hnw. pose proof (Inv_run ops Hwf) as HI.
+  set (d := db_run ops) in *. set (sp := spec_run ops) in *.
+  pose proof (inv_ok _ _ HI) as Hok.
+  destruct (tmatch_exact KShared sp Hok (trie_of KShared d) (split t) (inv_trie _ _ HI KShared)
+              (split_nonempty t) Hnw) as [Hnd Hin].
+  exists (cfilter c (tmatch (split t) (trie_of KShared d))). split; [|split].
+  - rewrite db_iterate_shared_only by reflexivity.
+    unfold iterate_shared, cfilter. cbn [q_sh_topic io_topic io_mt io_client].
+    apply is_empty_false in Ht. rewrite Ht. cbn [negb].
+    destruct (negb (is_empty c)); reflexivity.
+  - now apply NoDup_cfilter.
+  - intros c' s. rewrite in_cfilter, Hin. split.
+    + intros [(Hk & Hget & Hlm) Hw]. apply kind_of_shared_inv in Hk. tauto.
+    + intros (Hg & Hget & Hlm & Hw). split; [|exact Hw].
+      split; [now apply kind_of_shared|]. tauto.
+Qed.
+
+Lemma is_empty_share_prefix x : is_empty (SHARE_PREFIX ++ x) = false.
+Proof. reflexivity. Qed.
+
+Lemma sh_lookup_name_exact ops g f c :
+  wf_ops ops = true -> g <> [] -> no_slash g = true -> f <> [] ->
+  exists l, db_iterate (q_sh_name (SHARE_PREFIX ++ g ++ SLASH :: f) c) (db_run ops) = IOk (some_ents l) /\ NoDup l /\
+    forall c' s, In (c', s) l <-> (sp_get (c', g, f) (spec_run ops) = Some s /\ want_client c c').
+Proof.
+  intros Hwf Hg Hns Hf. pose proof (Inv_run ops Hwf) as HI.
+  set (d := db_run ops) in *. set (sp := spec_run ops) in *.
+  pose proof (inv_ok _ _ HI) as Hok.
+  set (T := trie_of KShared d).
+  pose proof (inv_trie _ _ HI KShared) as HT. fold T in HT.
+  pose proof (proj2 HT (split f)) as HN.
+  assert (Hkf : kind_of g f = KShared) by now apply kind_of_shared.
+  exists (cfilter c (obs g (nd (split f) T))). split; [|split].
+  - rewrite db_iterate_shared_only by reflexivity. fold T.
+    unfold iterate_shared. cbn [q_sh_name io_topic io_mt io_client].
+    rewrite is_empty_share_prefix. cbn [negb]. rewrite has_prefix_app.
+    change (skipn 7 (SHARE_PREFIX ++ g ++ SLASH :: f)) with (g ++ SLASH :: f).
+    rewrite (cut_slash_app g f Hns).
+    destruct (tfind f T) as [x|] eqn:Ef.
+    + apply tfind_some in Ef. rewrite Ef in *. rewrite (obs_ne g x Hg). unfold grp, cfilter.
+      destruct (aget g (n_shared x)) as [l0|]; destruct (negb (is_empty c)); reflexivity.
+    + rewrite (tfind_none KShared _ f T g HT Ef). now rewrite cfilter_nil.
+  - apply NoDup_cfilter. apply NoDup_keys_NoDup. exact (ni_nd _ _ _ _ HN g).
+  - intros c' s. rewrite in_cfilter. split.
+    + intros [Hin Hw]. split; [|exact Hw].
+      destruct (obs_entry KShared sp Hok _ _ g c' s HN Hin) as (Hgs & Hp & _ & Hget).
+      apply split_inj in Hp. now rewrite Hgs, <- Hp in Hget.
+    + intros [Hget Hw]. split; [|exact Hw].
+      now apply (entry_complete KShared sp _ c' g f s HN Hkf).
+Qed.
+
+Lemma tget_group c g p T :
+  match tget p T with
+  | Some x => match aget g (n_shared x) with
+              | Some grp0 => some_ents (of_client c grp0)
+              | None => []
+              end
+  | None => []
+  end = some_ents (of_client c (grp g (nd p T))).
+Proof.
+  rewrite nd_tget. unfold grp. destruct (tget p T) as [x|]; [|reflexivity].
+  destruct (aget g (n_shared x)); reflexivity.
+Qed.
+
+Lemma sh_lookup_client_exact ops c :
+  wf_ops ops = true -> c <> [] ->
+  exists l, db_iterate (q_sh_client c) (db_run ops) = IOk (some_ents l) /\ NoDup l /\
+    forall c' s, In (c', s) l <-> (c' = c /\ s_share s <> [] /\ sp_get (c, s_share s, s_filter s) (spec_run ops) = Some s).
+Proof.
+  intros Hwf Hc. pose proof (Inv_run ops Hwf) as HI.
+  set (d := db_run ops) in *. set (sp := spec_run ops) in *.
+  pose proof (inv_ok _ _ HI) as Hok.
+  exists (ents_of KShared c sp). split; [|split].
+  - rewrite db_iterate_shared_only by reflexivity.
+    unfold iterate_shared. cbn [q_sh_client io_topic io_client is_empty negb].
+    pose proof Hc as Hc'. apply is_empty_false in Hc'. rewrite Hc'. cbn [negb].
+    set (F := fun key : str =>
+                match cut_slash key with
+                | (g, Some f) =>
+                    match tget (split f) (trie_of KShared d) with
+                    | Some x => match aget g (n_shared x) with
+                                | Some grp0 => some_ents (of_client c grp0)
+                                | None => []
+                                end
+                    | None => []
+                    end
+                | (_, None) => []
+                end).
+    transitivity (IOk (flat_map F (keys_at c (index_of KShared d)))).
+    { unfold keys_at. destruct (aget c (index_of KShared d)); reflexivity. }
+    f_equal. rewrite (inv_idx _ _ HI). apply client_keys_map.
+    intros g f s Hin Hkf. unfold F.
+    pose proof (kind_of_shared_inv g f Hkf) as Hg.
+    pose proof (spec_ok_key c g f s sp Hok Hin) as Hns.
+    unfold index_key. pose proof Hg as Hg'. apply is_empty_false in Hg'. rewrite Hg'.
+    rewrite (cut_slash_app g f Hns), tget_group.
+    pose proof (proj2 (inv_trie _ _ HI KShared) (split f)) as HN.
+    rewrite <- (obs_ne g _ Hg).
+    rewrite of_client_aget by exact (ni_nd _ _ _ _ HN g).
+    rewrite (ni_get _ _ _ _ HN g f c eq_refl Hkf).
+    assert (Hget : sp_get (c, g, f) sp = Some s) by (apply In_sp_get; [apply Hok|exact Hin]).
+    unfold skey in *. rewrite Hget. reflexivity.
+  - now apply nodup_ents_of.
+  - intros c' s. rewrite (in_ents_of _ _ _ _ _ Hok). split.
+    + intros (-> & Hk & Hget). apply kind_of_shared_inv in Hk. tauto.
+    + intros (-> & Hg & Hget). split; [reflexivity|]. split; [now apply kind_of_shared|exact Hget].
 Qed.
